@@ -13,7 +13,7 @@ EXPLANATION = (
     "clear re-allocates with the field's own len/element_bits. R11-growth-census: every growth operation (push/insert/extend) on "
     "a container field outside constructors is guarded by a capacity test against a configuration field, paired with a removal on "
     "the same path, followed by a size check that drains it, or the documented LossyCounter exception."
-    " TDigest's centroid bound is a function of the scale functions' n, so n_samples must be counted +1 per insert (R16-insert) and merge must fuse under the scale-function criterion (C04's R04-merge-criterion / R04-sorted-input / R04-scale-clamp / R04-backlog-policy); CMSHeap's `paired with a removal` bound relies on C10's paired-update rule — both are applied here."
+    " TDigest's centroid bound is a function of the scale functions' n, so n_samples must be counted +1 per insert (R16-insert) and merge must fuse under the scale-function criterion (C04's R04-merge-criterion / R04-sorted-input / R04-scale-clamp / R04-backlog-policy); CMSHeap's `paired with a removal` bound relies on C10's paired-update rule — both are applied here. The LossyCounter exception is only as good as its pruning, so C09's R09-prune / R09-n (every window end filters the table, on every path, and n advances per add) are applied here as well."
 )
 NOT_DECIDED = "that TDigest's centroids number O(delta) after a merge (C04's numeric clause); allocator slack and Vec growth factors"
 ASSUMPTIONS = ["IntVector::block_with_fill(bits, n, v) allocates n storage blocks", "FixedBitSet::with_capacity(n) allocates n bits", "vec![x; n] allocates n elements"]
@@ -176,6 +176,11 @@ def run(ctx):
     if ha is not None:
         from .C10 import heap_pairing_rules
         heap_pairing_rules(ctx, ha)
+    # LossyCounter.known is the documented exception of the growth census: it may grow within a window because every window end
+    # prunes it — which is exactly C09's R09-prune (with R09-n: the window position advances on every add)
+    from ..framework import RuleFilter
+    from . import C09
+    C09.run(RuleFilter(ctx, {"R09-prune", "R09-n"}))
 
 
 def classify_growth(ctx, adt, m, fld, e, i, evs, facts, cf):
